@@ -136,6 +136,23 @@ theorem no_network_ever (kw : ParserKw) (h : kw.noNetwork = true) (env : Env) (d
     ∀ u ∈ (parse facts17.lib kw env doc).fetches, facts17.lib.isNet u.scheme = false :=
   parse_nonnet _ kw env h doc
 
+/-- the same for ANY configuration that neither substitutes external entities nor loads DTDs
+    (`resolve_entities` False or 'internal'): nothing is opened -/
+theorem no_fetch_without_substitution (kw : ParserKw) (h1 : kw.resolveEntities ≠ .all) (h2 : kw.dtdLoads = false)
+    (env : Env) (doc : Doc) : (parse facts17.lib kw env doc).fetches = [] :=
+  parse_no_fetch' _ kw env h1 h2 doc
+
+/-- the schema tools (`parse_schema_string`, `parse_schema_file`, xsd includes; not on the request path) parse
+    with a module-level parser of their own; as measured it opens nothing on behalf of a document either -/
+theorem schema_tool_opens_nothing (env : Env) (doc : Doc) :
+    (parse facts17.lib facts17.schemaToolKw env doc).fetches = [] :=
+  parse_no_fetch' _ _ env (by decide) (by decide) doc
+
+/-- ... and neither does lxml's default parser, which the remaining off-path sites use -/
+theorem lxml_default_opens_nothing (env : Env) (doc : Doc) :
+    (parse facts17.lib facts17.lxmlDefault env doc).fetches = [] :=
+  parse_no_fetch' _ _ env (by decide) (by decide) doc
+
 /-! ### what the deserialiser takes out of the tree, per kind of value -/
 
 /-- every kind of value (primitive parameters, array items, members of nested classes, XmlData,
